@@ -13,6 +13,11 @@ def bool? : Json → Option Bool
   | .bool b => some b
   | _ => none
 
+/-- `drain` is a harness step: deliver until the client's queue is empty -/
+def isDrain : Json → Option Nat
+  | .arr [c, .str name] => if String.ofList name = "drain" then nat? c else none
+  | _ => none
+
 def decOp : Json → Option (Nat × Op)
   | .arr (c :: .str name :: args) =>
     match nat? c with
@@ -35,11 +40,32 @@ def decOp : Json → Option (Nat × Op)
       | _, _ => none
   | _ => none
 
-def decOps : List Json → Option (List (Nat × Op))
+def decOps : List Json → Option (List (Nat × Op ⊕ Nat))
   | [] => some []
-  | j :: js => match decOp j, decOps js with
-    | some o, some os => some (o :: os)
-    | _, _ => none
+  | j :: js =>
+    match isDrain j with
+    | some c => (decOps js).map (fun os => .inr c :: os)
+    | none => match decOp j, decOps js with
+      | some o, some os => some (.inl o :: os)
+      | _, _ => none
+
+def plainOps : List (Nat × Op ⊕ Nat) → List (Nat × Op)
+  | [] => []
+  | .inl o :: r => o :: plainOps r
+  | .inr c :: r => (c, .deliver) :: plainOps r
+
+/-- Redis schedule with `drain` expanded into as many `deliver` steps as the queue is long -/
+def runR (q : Quirks) (cfgs : Nat → Cfg) (w : RWorld) : List (Nat × Op ⊕ Nat) → RWorld × List Out
+  | [] => (w, [])
+  | .inl (c, op) :: rest =>
+    let r := rstep q cfgs w c op
+    let r2 := runR q cfgs r.1 rest
+    (r2.1, r.2 :: r2.2)
+  | .inr c :: rest =>
+    let n := (w.cl c).pending.length
+    let r := rrun q cfgs w (List.replicate n (c, .deliver))
+    let r2 := runR q cfgs r.1 rest
+    (r2.1, .done :: r2.2)
 
 def decCfg (j : Json) : Option Cfg :=
   match j.get "pre", (j.get "isList").bind bool?, (j.get "cap").bind nat?, (j.get "legacy").bind bool? with
@@ -86,9 +112,6 @@ def decTtl : List (Str × Json) → Option (List (Str × Nat))
     | some n, some r' => some ((k, n) :: r')
     | _, _ => none
 
-/-- deliver-all: the harness's delivery step drains the queue of a client -/
-def expand (ops : List (Nat × Op)) : List (Nat × Op) := ops
-
 def runCase (j : Json) : Option Json :=
   let q : Quirks := {
     emptyAbsent := (((j.get "q").bind (·.get "emptyAbsent")).bind bool?).getD false,
@@ -100,20 +123,20 @@ def runCase (j : Json) : Option Json :=
     | some ops =>
       match String.ofList kind with
       | "mem" =>
-        let r := mrun [] (ops.map (·.2))
+        let r := mrun [] ((plainOps ops).map (·.2))
         some (.arr (r.2.map encOut ++ [.obj [("mem".toList, .obj r.1)]]))
       | "json" =>
         match (j.get "file").bind decFile with
         | none => none
         | some f =>
-          let r := jrun q (jopen f) ops
+          let r := jrun q (jopen f) (plainOps ops)
           some (.arr (r.2.map encOut ++ [.obj [("file".toList, encFile r.1.file)]]))
       | "redis" =>
         match j.get "cfgs", j.get "srv", j.get "ttl" with
         | some (.arr cs), some (.obj srv), some (.obj ttl) =>
           match decCfgs cs, decTtl ttl with
           | some cfgs, some ttl =>
-            let r := rrun q (fun c => cfgs.getD c default) (ropen srv ttl) ops
+            let r := runR q (fun c => cfgs.getD c default) (ropen srv ttl) ops
             some (.arr (r.2.map encOut ++
               [.obj [("srv".toList, .obj r.1.srv), ("ttl".toList, .obj (r.1.ttl.map (fun e => (e.1, .num e.2))))]]))
           | _, _ => none
